@@ -4,6 +4,7 @@ set -e
 cd "$(dirname "$0")"
 export CARGO_NET_OFFLINE=true
 (cd harness && cargo build --offline --release -p vh && cargo build --offline --release -p vhtls-rustls && cargo build --offline --release -p vhtls-native)
+cargo build --offline --release -p ipp-util --manifest-path /repo/Cargo.toml --target-dir harness/target/repo
 for m in spec/MC_*.tla spec/Trace_*.tla; do
   [ -f "$m" ] || continue
   (cd spec && tla-sany "$(basename "$m")" >/dev/null) || { echo "SANY failed on $m"; exit 1; }
